@@ -6,6 +6,9 @@
 import LpProofs.C12.Lemmas
 import LpProofs.C12.Legendre
 import LpProofs.C12.N2
+import LpProofs.C12.N3
+import LpProofs.C12.RealGL
+import LpProofs.C12.Interval
 namespace Lp.C12
 
 /-! ## [T1] gl_mirror -/
@@ -209,7 +212,35 @@ theorem integ_history_independent (f : Rat → Rat) (z pp : Nat → Nat → Rat)
 
 /-! ## [T2] the coded recurrence, its derivative, the middle root, n = 1 -/
 
--- `legendre_derivative`, `legendre_odd_zero`, `newton_middle_root`, `gl_exact_n1` (Legendre.lean), `gl_n2_defect` (N2.lean) are in
--- LpProofs/C12/Legendre.lean (re-exported here under the names listed in obligations/C12.txt).
+-- `legendre_derivative`, `legendre_odd_zero`, `newton_middle_root`, `gl_exact_n1` (Legendre.lean), `gl_n2_defect` (N2.lean),
+-- `gl_n3_defect` (N3.lean) are in LpProofs/C12/*.lean (listed in obligations/C12.txt).
+
+/-! ## [T2] exactness to degree 2n−1 for ALL n (clause "the rule integrates every polynomial of degree ≤ 2n−1 exactly")
+
+  The integral over `[-1,1]` is the ALGEBRAIC one on polynomials (`integ`, Integ.lean: `∫ x^k = (1−(−1)^(k+1))/(k+1)`,
+  with the fundamental theorem `integ_derivative` and `integ_by_parts` proved from that definition).
+
+  * `gl_exact_of_orthogonality` (Exact.lean)  — structure theorem over any field: `P` of degree `n` vanishing at the
+    nodes and orthogonal to degree `< n`, weights exact on degree `< n`  ⟹  exact on degree `≤ 2n−1`;
+    `interp_weights_exact`/`interp_weights_unique`: the weight hypothesis is met exactly by the interpolatory weights;
+    `gl_exact_nodal`: only orthogonality of the nodal polynomial is left as hypothesis.
+  * `legendre_ode`, `legendre_orthogonal(_monomial/_K)`, `legPoly_natDegree` (Orthogonal.lean) — the polynomials of the
+    CODED recurrence satisfy `((x²−1)P_n')' = n(n+1)P_n`, have degree `n`, and `∫ P_n q = 0` for every `q` of degree
+    `< n`, for all `n` (general induction; no per-`n` computation).
+  * `christoffel_darboux`, `gl_weight_formula` (Weights.lean) — at a root `z` of `P_n` the interpolatory weight IS the
+    coded `2/((1−z²)P_n'(z)²)`, all `n ≥ 1`.
+  * `gl_exact_legendre` (Weights.lean) — Gauss–Legendre exactness for ALL `n`, any field of characteristic zero:
+    nodes = `n` distinct roots of the coded `P_n`, weights = the coded formula with the coded `pp`.
+    `codedWeight_eq_model` (Small.lean): over ℚ these are the model's `legendreDeriv`, `weightOf 1`.
+  * `gl_exact_legendre_interval` (Interval.lean) — the same on every interval `[a,b]` (either orientation): nodes
+    `m + h z`, weights `2h/((1−z²)pp²)` as written by the C++, against the algebraic integral `integAB a b`
+    (`integ_comp_affine` is the substitution rule, `integ_eq_integAB` ties it to `integ`).
+  * `gl_exact_n2_field/_n3_field` (Small.lean), `gl_exact_n2_real/_n3_real` (RealGL.lean) — instances with the true
+    irrational nodes in ℝ (non-vacuity of `gl_exact_legendre` for n = 2, 3); n = 1 over ℚ.
+
+  What stays outside the theorems: that `P_n` HAS `n` distinct real roots in (−1,1) and that the coded Newton iteration
+  from `cos(π(i+¾)/(n+½))` converges to the `i`-th of them (evaluated per `n` by the check), and the effect of stopping
+  at `|Δz| ≤ 1e−14` / double rounding (`gl_n2_defect`, `gl_n3_defect` give the exact dependence of the defect on
+  `P_n(s)` for n = 2, 3).  `gl_affine_sum` transfers exactness from `[-1,1]` to `[a,b]`. -/
 
 end Lp.C12
